@@ -24,6 +24,7 @@ type SpecEnv struct {
 	isOld bool
 	alloc string
 	depth int
+	entryHeap map[string]string // heap at entry of the loop whose invariant is evaluated
 }
 
 func (e *SpecEnv) child() *SpecEnv {
@@ -517,6 +518,17 @@ func (c *FnCtx) evalCall(env *SpecEnv, e *Expr) (Val, error) {
 		return nil
 	}
 	switch e.Name {
+	case "entry":
+		// entry(e): e evaluated in the heap at the entry of the enclosing loop
+		if len(e.Args) != 1 {
+			return Val{}, fmt.Errorf("entry(e) takes one argument")
+		}
+		if env.entryHeap == nil {
+			return Val{}, fmt.Errorf("entry(...) is only available in loop invariants")
+		}
+		sub := env.child()
+		sub.heap = env.entryHeap
+		return c.eval(sub, e.Args[0])
 	case "len":
 		if err := evalArgs(); err != nil {
 			return Val{}, err
